@@ -814,6 +814,12 @@ func (c *EvalCtx) call(n *Node) Val {
 			}
 		}
 		return mkInt(cnt)
+	case "other_schema":
+		// the other document the scenario loader returns (sgen(@registered))
+		if r, ok := c.st.Ghost["scenario:other-schema"].(Ref); ok {
+			return r
+		}
+		specErr(n, "other_schema: the scenario has no other document")
 	case "pure_result":
 		// pure_result("(*T).Method", arg...): the unknown-but-deterministic string a
 		// function used through `option pure` returns for these arguments
